@@ -747,6 +747,19 @@ func (m *Machine) intrinsic(s *State, f *Frame, x *ssa.Call, name string, callee
 		if r, ok := m.binaryIntrinsic(s, f, x, name, args); ok {
 			return r, true
 		}
+	case name == "bytes.Count":
+		bs := m.bytesOf(s, args[0])
+		sep := m.bytesOf(s, args[1])
+		if len(sep) != 1 {
+			s.fail("unsupported", "bytes.Count with a separator that is not one byte")
+			return nil, true
+		}
+		cnt := c.BV(0, 64)
+		for _, b := range bs {
+			cnt = c.BvBin("bvadd", cnt, c.Ite(c.Cmp("=", b, sep[0]), c.BV(1, 64), c.BV(0, 64)))
+		}
+		f.env[x] = Sc{cnt}
+		return nil, true
 	case name == "bytes.Compare":
 		f.env[x] = Sc{m.cmpBytes(m.bytesOf(s, args[0]), m.bytesOf(s, args[1]))}
 		return nil, true
